@@ -382,6 +382,17 @@ func c07Run(ctx *core.Ctx) {
 		}
 		ctx.Eval(1)
 		c07Set(ctx, i, fs, ctx.Thorough())
+		// the same set under ONE file name (the statement speaks of a list of files, not of distinct names)
+		if len(fs.Files) >= 2 && (ctx.Thorough() || i%3 == 1) {
+			same := gen.FileSet{Tag: fs.Tag + " [all files named same.fga]"}
+			for _, f := range fs.Files {
+				g := f
+				g.Name = "same.fga"
+				same.Files = append(same.Files, g)
+			}
+			ctx.Eval(1)
+			c07Set(ctx, i, same, ctx.Thorough())
+		}
 	})
 }
 
